@@ -131,6 +131,49 @@ func distinctLines(a, b string) int {
 	return len(arr) - 1
 }
 
+// diffObs records what FileDiff.Consume returned for one file (and the fine observations behind the model of the
+// line counter / splitter / stripWhitespace on the same two blobs)
+func diffObs(data api.FileDiffData, ba, bb *api.CachedBlob, a, b []byte, ws bool) (obs []Sx) {
+	runs := make([]Sx, len(data.Diffs))
+	for i, d := range data.Diffs {
+		runs[i] = T(opName(d.Type), I(utf8.RuneCountInString(d.Text)))
+	}
+	obs = append(obs, T("diffs", runs...), T("old", I(data.OldLinesOfCode)), T("new", I(data.NewLinesOfCode)),
+		T("cla", countLines(ba)), T("clb", countLines(bb)))
+	// the text of every run IS the sequence of line identifiers FileDiff.Consume handed to DiffMainRunes, i.e. the
+	// identifiers after the shift out of the surrogate range (the engine only cuts and regroups its input; a
+	// surrogate would come back as U+FFFD): the only place where the shifted identifiers can be observed
+	rt := make([]Sx, len(data.Diffs))
+	for i, d := range data.Diffs {
+		rs := []rune(d.Text)
+		ids := make([]int, len(rs))
+		for j, r := range rs {
+			ids[j] = int(r)
+		}
+		rt[i] = T(opName(d.Type), Ints(ids))
+	}
+	obs = append(obs, T("rt", rt...))
+	sa, sb := api.StripWhitespace(string(a), ws), api.StripWhitespace(string(b), ws)
+	if ws {
+		obs = append(obs, T("sa", Bytes([]byte(sa))), T("sb", Bytes([]byte(sb))))
+	}
+	obs = append(obs, T("la", Ints(lineLens(sa))), T("lb", Ints(lineLens(sb))))
+	if len(sa)+len(sb) <= 400 {
+		// small cases: the line ids themselves (one table shared by both texts)
+		src, dst, _ := diffmatchpatch.New().DiffLinesToRunes(sa, sb)
+		ri := func(rs []rune) []int {
+			res := make([]int, len(rs))
+			for i, r := range rs {
+				res[i] = int(r)
+			}
+			return res
+		}
+		obs = append(obs, T("ids", Ints(ri(src)), Ints(ri(dst))))
+	}
+
+	return obs
+}
+
 func run(in input) (obs []Sx) {
 	fd := &api.FileDiff{}
 	fd.Initialize(nil)
@@ -166,42 +209,7 @@ func run(in input) (obs []Sx) {
 	if cerr != nil {
 		return []Sx{T("error")}
 	}
-	runs := make([]Sx, len(data.Diffs))
-	for i, d := range data.Diffs {
-		runs[i] = T(opName(d.Type), I(utf8.RuneCountInString(d.Text)))
-	}
-	obs = append(obs, T("diffs", runs...), T("old", I(data.OldLinesOfCode)), T("new", I(data.NewLinesOfCode)),
-		T("cla", countLines(ba)), T("clb", countLines(bb)))
-	// the text of every run IS the sequence of line identifiers FileDiff.Consume handed to DiffMainRunes, i.e. the
-	// identifiers after the shift out of the surrogate range (the engine only cuts and regroups its input; a
-	// surrogate would come back as U+FFFD): the only place where the shifted identifiers can be observed
-	rt := make([]Sx, len(data.Diffs))
-	for i, d := range data.Diffs {
-		rs := []rune(d.Text)
-		ids := make([]int, len(rs))
-		for j, r := range rs {
-			ids[j] = int(r)
-		}
-		rt[i] = T(opName(d.Type), Ints(ids))
-	}
-	obs = append(obs, T("rt", rt...))
-	sa, sb := api.StripWhitespace(string(in.a), in.ws), api.StripWhitespace(string(in.b), in.ws)
-	if in.ws {
-		obs = append(obs, T("sa", Bytes([]byte(sa))), T("sb", Bytes([]byte(sb))))
-	}
-	obs = append(obs, T("la", Ints(lineLens(sa))), T("lb", Ints(lineLens(sb))))
-	if len(sa)+len(sb) <= 400 {
-		// small cases: the line ids themselves (one table shared by both texts)
-		src, dst, _ := diffmatchpatch.New().DiffLinesToRunes(sa, sb)
-		ri := func(rs []rune) []int {
-			res := make([]int, len(rs))
-			for i, r := range rs {
-				res[i] = int(r)
-			}
-			return res
-		}
-		obs = append(obs, T("ids", Ints(ri(src)), Ints(ri(dst))))
-	}
+	obs = append(obs, diffObs(data, ba, bb, in.a, in.b, in.ws)...)
 
 	// the consumer: a fresh BurndownAnalysis sees the old blob as an insertion (file created with
 	// CountLines lines), then the modification with the diff computed above
@@ -322,16 +330,20 @@ func parseCase(cs Sx) input {
 	return in
 }
 
+// the burndown consumer logs integrity errors; keep the log out of the way
+func quietStderr() {
+	if devnull, err := os.OpenFile(os.DevNull, os.O_WRONLY, 0); err == nil {
+		os.Stderr = devnull
+	}
+}
+
 // Main is the body of both binaries: cmd/c11 (small and medium cases, shrinkable) and cmd/c11big (large cases:
 // the id-space family with more than 55 295 distinct lines and the scale family; a stream of its own because
 // shrinking megabyte inputs is pointless).
 func Main(big bool) {
 	c := Setup()
 	defer c.Close()
-	// the burndown consumer logs integrity errors; keep the log out of the way
-	if devnull, err := os.OpenFile(os.DevNull, os.O_WRONLY, 0); err == nil {
-		os.Stderr = devnull
-	}
+	quietStderr()
 	if c.Replay != "" {
 		for _, cs := range c.ReplayCases() {
 			emit(c, parseCase(cs))
